@@ -47,6 +47,9 @@ type Case struct {
 	// Verbose: the process-wide log verbosity is 5 while the program runs (the library has
 	// V(4)/V(5) blocks on its worker and aggregation paths; output is discarded)
 	Verbose bool `json:"verbose,omitempty"`
+	// Pairs (mode pool): a message holds two consecutive records of its stream and ends with a record
+	// the process refuses; what was taken before the refusal is taken exactly once
+	Pairs bool `json:"pairs,omitempty"`
 }
 
 var rec *ev.Recorder
@@ -245,7 +248,11 @@ func runCase(c Case) (*ev.Failure, bool) {
 			for _, s := range c.Streams {
 				maxLen = max(maxLen, len(s))
 			}
-			for k := 0; k < maxLen; k++ {
+			step := 1
+			if c.Pairs {
+				step = 2
+			}
+			for k := 0; k < maxLen; k += step {
 				var bw sync.WaitGroup
 				for s := range c.Streams {
 					if k >= len(c.Streams[s]) {
@@ -255,6 +262,14 @@ func runCase(c Case) (*ev.Failure, bool) {
 					go func(s int) {
 						defer bw.Done()
 						r := record(s, k, c.Streams[s][k])
+						batch := []aggh.Rec{r}
+						if c.Pairs && k+1 < len(c.Streams[s]) {
+							// two consecutive records of the stream in one message, which ends with a record
+							// the process has to refuse (it lacks a port): the message fails after both
+							// were taken
+							r = record(s, k+1, c.Streams[s][k+1])
+							batch = append(batch, r)
+						}
 						f := r.Flow
 						flowMu.Lock()
 						if firstStart[f] == 0 {
@@ -264,7 +279,11 @@ func runCase(c Case) (*ev.Failure, bool) {
 						if ingestActive[f].Add(1) >= 2 && scanActive.Load() > 0 {
 							overlap.Store(true)
 						}
-						ch <- aggh.Message(fl, r)
+						if c.Pairs {
+							ch <- aggh.MessageWithRefusedRecord(fl, batch...)
+						} else {
+							ch <- aggh.Message(fl, r)
+						}
 						// processed once the stream's per-node end time shows the record's
 						key := fl[f].Key()
 						for end := time.Now().Add(20 * time.Second); ; {
@@ -287,8 +306,10 @@ func runCase(c Case) (*ev.Failure, bool) {
 						}
 						flowMu.Unlock()
 						mu.Lock()
-						for i := range ingested[s] {
-							ingested[s][i] += r.Dlt[i]
+						for _, b := range batch {
+							for i := range ingested[s] {
+								ingested[s][i] += b.Dlt[i]
+							}
 						}
 						lastRec[s] = &r
 						mu.Unlock()
@@ -454,6 +475,7 @@ func genCase(t *rapid.T) Case {
 	c := Case{Mode: rapid.SampledFrom([]string{"direct", "direct", "pool"}).Draw(t, "mode"), Workers: rapid.IntRange(1, 8).Draw(t, "workers"),
 		Procs: rapid.SampledFrom([]int{2, 4, 16}).Draw(t, "procs")}
 	c.Verbose = rapid.IntRange(0, 3).Draw(t, "verbose") == 0
+	c.Pairs = c.Mode == "pool" && rapid.IntRange(0, 2).Draw(t, "pairs") == 0
 	for s := 0; s < 6; s++ {
 		var recs []int
 		n := rapid.IntRange(0, 25).Draw(t, "nrec")
